@@ -8,12 +8,14 @@ from .codec import opt, plain
 from .core import Plugin
 
 SAFE = "abcdefghijklmnopqrstuvwxyzABCDEFGHIJKLMNOPQRSTUVWXYZ0123456789-._~"
-PREFIXES = ["go", "GO", "doi", "chebi", "a", "b", "ab", "x-y", "n1", "obo.go", "A_b", "z~", "123", "4.1", "2-1", "9", "~", "-"]
+SUBDELIMS = "!$&'()*+,;=@"          # also legal in a URL path segment; regular-expression and format metacharacters among them
+UNKNOWN = ["nope", "zz", "Unknown", "*", "+go", "go(", "go)", "a(b", "x$", "a'b", "a,b", "a;b", "a=b", "a@b", "c+", "!!", "&amp", "(go", "g*o"]
+PREFIXES = ["go", "GO", "doi", "chebi", "a", "b", "ab", "x-y", "n1", "obo.go", "A_b", "z~", "123", "4.1", "2-1", "9", "~", "-", "c++", "a(b)", "x*"]
 
 
 def segment(rng, d):
     k = rng.randint(1, 6)
-    s = "".join(rng.choice(SAFE) for _ in range(k))
+    s = "".join(rng.choice(SAFE if rng.random() < 0.85 else SUBDELIMS) for _ in range(k))
     if s in (".", ".."):
         s = "x" + s
     if rng.random() < 0.3 and d != "/":
@@ -58,7 +60,7 @@ class C17(Plugin):
             known = [p for r in recs for p in [r[0], *r[2]]]
             paths = []
             for _ in range(6):
-                p = rng.choice(known) if rng.random() < 0.75 else rng.choice(["nope", "zz", "Unknown"])
+                p = rng.choice(known) if rng.random() < 0.75 else rng.choice(UNKNOWN)
                 ident = "/".join(segment(rng, d) for _ in range(rng.choice([1, 1, 2, 3, 4])))
                 paths.append(p + d + ident)
             # staging: the app is built when only the first `early` records are registered; the requests are sent, the remaining
@@ -89,10 +91,14 @@ class C17(Plugin):
                     expands.append(opt(c.expand(p)))
                 except Exception:
                     expands.append(None)
-                r1 = fl.get("/" + p, follow_redirects=False)
-                r2 = fa.get("/" + p, follow_redirects=False)
-                rows.append([[r1.status_code, r1.headers.get("Location", "") if r1.status_code == 302 else ""],
-                             [r2.status_code, r2.headers.get("location", "") if r2.status_code in (302, 307) else ""]])
+                row = []
+                for client, key in ((fl, "Location"), (fa, "location")):
+                    try:
+                        r = client.get("/" + p, follow_redirects=False)
+                        row.append([r.status_code, r.headers.get(key, "") if r.status_code in (302, 307) else ""])
+                    except Exception as e:       # an exception escaping the handler: the server would answer 500
+                        row.append([500, "<" + type(e).__name__ + ">"])
+                rows.append(row)
                 asked.append(p)
 
         ask()
